@@ -24,6 +24,10 @@ pub enum Op {
     FmtLit(usize),
     /// one `flush` call
     Flush,
+    /// one `write!` whose first (and only) argument's `Display` impl panics before it has written
+    /// anything; the client catches the panic and keeps using the stream.  Nothing was handed over,
+    /// so the stream must be exactly as it was.
+    FmtPanic,
 }
 
 impl Op {
@@ -32,7 +36,7 @@ impl Op {
             Op::Chunk(n) | Op::Write(n) | Op::WriteAll(n) => *n,
             Op::Vectored(v) | Op::Fmt(v) | Op::FmtFail(v, _) => v.iter().sum(),
             Op::FmtLit(k) => crate::streams::LITS.get(*k).map(|s| s.len()).unwrap_or(0),
-            Op::Flush => 0,
+            Op::Flush | Op::FmtPanic => 0,
         }
     }
     pub fn name(&self) -> &'static str {
@@ -45,6 +49,7 @@ impl Op {
             Op::FmtFail(..) => "write_fmt_fail",
             Op::FmtLit(_) => "write_fmt_literal",
             Op::Flush => "flush",
+            Op::FmtPanic => "write_fmt_panicking_arg",
         }
     }
 }
@@ -88,7 +93,7 @@ impl Trace {
                     }
                     h.u64(*k as u64)
                 }
-                Op::Flush => {}
+                Op::Flush | Op::FmtPanic => {}
             }
         }
         for f in &self.faults {
@@ -168,6 +173,7 @@ fn op_json(op: &Op) -> Value {
         Op::FmtFail(v, k) => json!({"op": op.name(), "lens": v, "fail_after": k}),
         Op::FmtLit(k) => json!({"op": op.name(), "literal_index": k, "literal": crate::streams::LITS.get(*k)}),
         Op::Flush => json!({"op": "flush"}),
+        Op::FmtPanic => json!({"op": "write_fmt_panicking_arg"}),
     }
 }
 
@@ -194,6 +200,7 @@ fn op_from(v: &Value) -> Result<Op, String> {
         ),
         "write_fmt_literal" => Op::FmtLit(v.get("literal_index").and_then(|x| x.as_u64()).unwrap_or(0) as usize),
         "flush" => Op::Flush,
+        "write_fmt_panicking_arg" => Op::FmtPanic,
         other => return Err(format!("unknown op {other}")),
     })
 }
